@@ -88,7 +88,7 @@ func aliased(n int) string {
 	return b.String()
 }
 
-var mergeFirst int // catalogue index of the first merge-family text
+var mergeFirst, mergeEnd int // catalogue[mergeFirst:mergeEnd] = the merge family
 
 func init() {
 	mergeFirst = len(catalogue)
@@ -105,11 +105,13 @@ func init() {
 		[]kvp{{"a", `true`}, {"b", `true`}},
 		[]kvp{{"a", `false`}, {"b", `false`}},
 		[]kvp{{"a", `true`}, {"b", `false`}})
+	mergeEnd = len(catalogue)
+	initIntro() // intro.go: the introspection and nullability families come after the merge family
 }
 
 func mergeTexts() []string {
 	var ts []string
-	for _, c := range catalogue[mergeFirst:] {
+	for _, c := range catalogue[mergeFirst:mergeEnd] {
 		ts = append(ts, c.text)
 	}
 	return ts
